@@ -241,8 +241,26 @@ def sub_equality(ctx, shard, n):
                       [["Diatonic", M, o, [3, 7]], ["Major", M, o]], [["Diatonic", m, o, [2, 5]], ["NaturalMinor", m, o]],
                       [["Major", M, o], ["Major", M, o + 1]], [["Major", M, o], ["NaturalMinor", m, o]],
                       [["Chromatic", M, o], ["Chromatic", T.KEYS[n_sig][1], o]]]
+    # parallel keys: the chromatic scale is spelled differently in X major and x minor although both print the same name
+    for M in T.MAJOR_KEYS:
+        if M.lower() in T.MINOR_KEYS:
+            for o in (1, 2):
+                cases.append([["Chromatic", M, o], ["Chromatic", M.lower(), o]])
     ctx.enumerate("eq", check_eq, cases[shard::n])
     inst = _instances(True)
+    if shard == 0:
+        # every pair of instances that print the same name or share tonic and octave count (where a shortcut would compare less
+        # than the note lists)
+        groups = {}
+        for d in inst:
+            if d[2] <= 2 and len(d[1]) <= 2:
+                s_ = _make(ctx, d)
+                if not failed(s_):
+                    groups.setdefault(("name", getattr(s_, "name", str(s_)), d[2]), []).append(d)
+                    groups.setdefault(("tonic", d[1], d[2]), []).append(d)
+        pairs = [[a, b] for g in groups.values() for i, a in enumerate(g) for b in g[i + 1:i + 12]]
+        ctx.exhaustive("equality of same-named / same-tonic scale instances", "octaves <= 2, accidentals <= 1", len(pairs))
+        ctx.enumerate("eq", check_eq, pairs)
     ctx.given("eq", check_eq, st.tuples(st.sampled_from(inst), st.sampled_from(inst)).map(list), 400 if ctx.quick else 5000)
 
 
